@@ -85,7 +85,7 @@ type WOpts struct {
 }
 
 var WireFeatures = []string{"bind", "bind-value-impl", "value", "ivalue", "struct", "struct-fields", "struct-value-consumer", "fieldsof", "fieldsof-value", "fieldsof-ptr",
-	"sets", "nested-sets", "inline-sets", "inline-sets-deep", "struct-unexported-field", "ext-alias-suffix", "ext-name-differs-from-path", "composite", "same-name-packages-across-files", "fieldsof-twice", "second-injector", "twin-types-in-same-named-packages", "value-ext-var", "build-in-panic", "struct-keyword-field", "struct-noinject-tag", "struct-no-fields", "named-alias", "wire-import-alias", "wire-legacy-build-tag", "wire-sets-in-var-block", "value-ext-nested-selector", "decoy-constructor-in-migrated-package", "struct-in-ext-package", "fieldsof-in-ext-package", "err", "args", "unused-arg", "multi-file", "ext", "bind-foreign-ctor", "bind-split-set", "multi-result"}
+	"sets", "nested-sets", "inline-sets", "inline-sets-deep", "struct-unexported-field", "ext-alias-suffix", "ext-name-differs-from-path", "ext-alias-equals-directory", "composite", "same-name-packages-across-files", "fieldsof-twice", "second-injector", "twin-types-in-same-named-packages", "value-ext-var", "build-in-panic", "struct-keyword-field", "struct-noinject-tag", "struct-no-fields", "named-alias", "wire-import-alias", "wire-legacy-build-tag", "wire-sets-in-var-block", "value-ext-nested-selector", "decoy-constructor-in-migrated-package", "struct-in-ext-package", "fieldsof-in-ext-package", "err", "args", "unused-arg", "multi-file", "ext", "bind-foreign-ctor", "bind-split-set", "multi-result"}
 
 func WAllowAll(except ...string) map[string]bool {
 	m := map[string]bool{}
@@ -184,7 +184,11 @@ func (g *wgen) ptrTo(s TypeID) TypeID {
 func (g *wgen) extKey() string {
 	if len(g.c.Exts) == 0 {
 		if g.o.ExtNames {
-			switch rapid.IntRange(0, 2).Draw(g.rt, "extnames-kind") {
+			switch rapid.IntRange(0, 3).Draw(g.rt, "extnames-kind") {
+			case 3:
+				// the alias equals the last element of the import path, the package there has another name
+				g.c.Exts = append(g.c.Exts, Ext{Key: "ext", Path: "x/store", Name: "storage", Alias: "store"})
+				g.w.AddFeature("ext-alias-equals-directory")
 			case 0:
 				// two packages with the same name, used from different files
 				g.c.Exts = append(g.c.Exts, Ext{Key: "ext", Path: "a/util", Name: "util"}, Ext{Key: "ext2", Path: "b/util", Name: "util", Alias: "util2"})
